@@ -612,8 +612,19 @@ def Leaves.consistent (L : Leaves) : Bool := pathsConsistent (L.map (·.1))
 /-- the leaves an environment gives -/
 def Env.leafList (env : Env) : Leaves := env.map fun e => (parseName e.1, e.2)
 
-theorem entries_eq (env : Env) : env.entries = atoms env.leafList := by
-  simp [Env.entries, atoms, Env.leafList, List.map_map, Function.comp_def]
+/-- an environment none of whose variables gives a nil value to a list position -/
+def Env.holeFree (env : Env) : Bool := env.all fun e => !holeVar (parseName e.1) e.2
+
+theorem entries_eq (env : Env) (h : env.holeFree = true) : env.entries = atoms env.leafList := by
+  simp only [Env.entries, atoms, Env.leafList, List.map_map]
+  apply List.map_congr_left
+  intro e he
+  have := List.all_eq_true.mp h e he
+  simp only [Bool.not_eq_true'] at this
+  simp [envVal, this]
+
+theorem entries_paths (env : Env) : env.entries.map (·.1) = env.leafList.map (·.1) := by
+  simp [Env.entries, Env.leafList, List.map_map, Function.comp_def]
 
 theorem consistent_eq (env : Env) : env.consistent = env.leafList.consistent := by
   simp [Env.consistent, Leaves.consistent, Env.leafList, List.map_map, Function.comp_def]
@@ -772,6 +783,197 @@ theorem leafTree_get_off (L : Leaves) (h : L.consistent = true) {p : Path}
   have := List.all_eq_true.mp ht l hl
   simp at this
   simp [get_single_off _ this]
+
+/-! ## entries that are scalars or holes (variables with a nil value at a list position contribute a hole) -/
+
+/-- two variables addressing compatible, different places stand for disjoint trees, whatever their values are -/
+theorem pdisj_single_any {q₁ q₂ : Path} (h : pathCompat q₁ q₂ = true) (v w : Val) :
+    pdisj (single q₁ v) (single q₂ w) := by
+  intro p
+  induction q₁ generalizing q₂ p with
+  | nil => simp [pathCompat] at h
+  | cons s₁ r₁ ih =>
+    cases q₂ with
+    | nil => simp [pathCompat] at h
+    | cons s₂ r₂ =>
+      cases s₁ with
+      | key k₁ =>
+        cases s₂ with
+        | idx n => simp [pathCompat] at h
+        | key k₂ =>
+          cases p with
+          | nil => simp [single, Val.kind, kdisj]
+          | cons seg p' =>
+            cases seg with
+            | idx n => simp [single, get_map_idx]
+            | key c =>
+              simp only [single, get_map_key, Fields.lookup]
+              by_cases h1 : k₁ = c
+              · by_cases h2 : k₂ = c
+                · subst h1; subst h2
+                  simp [pathCompat] at h
+                  simpa using ih h p'
+                · simp [h1, h2]
+              · simp [h1]
+      | idx n₁ =>
+        cases s₂ with
+        | key k => simp [pathCompat] at h
+        | idx n₂ =>
+          cases p with
+          | nil => simp [single, Val.kind, kdisj]
+          | cons seg p' =>
+            cases seg with
+            | key c => simp [single, get_seq_key]
+            | idx c =>
+              simp only [single, get_seq_idx, getD_padded]
+              by_cases h1 : c = n₁
+              · by_cases h2 : c = n₂
+                · subst h1; subst h2
+                  simp [pathCompat] at h
+                  simpa using ih h p'
+                · have h3 : ¬ n₁ = n₂ := fun e => h2 (h1.trans e)
+                  simp [h1, h3]
+              · simp [h1]
+
+/-- entry lists `envTree` consumes whose values are scalars or holes, at pairwise compatible, different places -/
+def EntriesOk (es : List (Path × Val)) : Prop :=
+  pathsConsistent (es.map (·.1)) = true ∧ ∀ e ∈ es, e.2 = .null ∨ ∃ a, e.2 = .atom a
+
+theorem entriesOk_perm {es₁ es₂ : List (Path × Val)} (hp : es₁.Perm es₂) (h : EntriesOk es₁) : EntriesOk es₂ := by
+  refine ⟨?_, fun e he => h.2 e (hp.mem_iff.mpr he)⟩
+  have := (pathsConsistent_iff _).mp h.1
+  apply (pathsConsistent_iff _).mpr
+  exact ((hp.map _).pairwise_iff (fun h => pathCompat_symm h)).mp this
+
+theorem entries_family (es : List (Path × Val)) (h : EntriesOk es) :
+    (singles es).Pairwise pdisj ∧ ∀ t ∈ singles es, pnodup t := by
+  constructor
+  · have := (pathsConsistent_iff _).mp h.1
+    simp only [singles, List.pairwise_map] at this ⊢
+    exact this.imp (fun h => pdisj_single_any h _ _)
+  · intro t ht
+    simp only [singles, List.mem_map] at ht
+    obtain ⟨e, he, rfl⟩ := ht
+    apply pnodup_of_nodup
+    rw [nodup_single]
+    rcases h.2 e he with h0 | ⟨a, h0⟩ <;> rw [h0] <;> rfl
+
+/-- observations of the tree of such entries: the fold over the entries -/
+theorem obs_entTree (es : List (Path × Val)) (h : EntriesOk es) :
+    pnodup (envTree es) ∧
+    ∀ p, ((envTree es).get p).kind = ((singles es).map fun t => (t.get p).kind).foldl kmerge .null := by
+  have fam := entries_family es h
+  have := obs_mergeAll (singles es) .null pnodup_null (fun t _ => pdisj_null_left t) fam.1 fam.2
+  rw [envTree_eq]
+  exact ⟨this.1, fun p => by rw [this.2 p]; simp⟩
+
+theorem entTree_perm {es₁ es₂ : List (Path × Val)} (hp : es₁.Perm es₂) (h : EntriesOk es₁) :
+    envTree es₁ ≈ envTree es₂ := by
+  intro p
+  have h₂ := entriesOk_perm hp h
+  rw [(obs_entTree es₁ h).2 p, (obs_entTree es₂ h₂).2 p]
+  have fam := entries_family es₁ h
+  apply kfold_perm
+  · exact ((hp.map _).map _)
+  · intro x _; simp
+  · rw [List.pairwise_map]
+    exact fam.1.imp (fun h => h p)
+
+theorem pairwise_mem_cases {α : Type} {R : α → α → Prop} {l : List α} (hp : l.Pairwise R) {a b : α}
+    (ha : a ∈ l) (hb : b ∈ l) : a = b ∨ R a b ∨ R b a := by
+  induction l with
+  | nil => simp at ha
+  | cons x xs ih =>
+    rw [List.pairwise_cons] at hp
+    rcases List.mem_cons.mp ha with ha1 | ha2
+    · rcases List.mem_cons.mp hb with hb1 | hb2
+      · exact Or.inl (ha1.trans hb1.symm)
+      · rw [ha1]; exact Or.inr (Or.inl (hp.1 b hb2))
+    · rcases List.mem_cons.mp hb with hb1 | hb2
+      · rw [hb1]; exact Or.inr (Or.inr (hp.1 a ha2))
+      · exact ih hp.2 ha2 hb2
+
+/-- compatible places do not lie on one branch -/
+theorem onBranch_of_pathCompat {p q : Path} (h : pathCompat p q = true) : onBranch p q = false := by
+  induction p generalizing q with
+  | nil => simp [pathCompat] at h
+  | cons s r ih =>
+    cases q with
+    | nil => simp [pathCompat] at h
+    | cons t u =>
+      cases s <;> cases t <;> simp [pathCompat] at h
+      · next a b =>
+        by_cases e : a = b
+        · subst e; simp at h; simp [onBranch, ih h]
+        · simp [onBranch, e]
+      · next a b =>
+        by_cases e : a = b
+        · subst e; simp at h; simp [onBranch, ih h]
+        · simp [onBranch, e]
+
+/-- the tree holds every entry's value at the entry's path: the scalar of a variable, nothing for a hole -/
+theorem entTree_get_entry (es : List (Path × Val)) (h : EntriesOk es) {q : Path} {v : Val} (hm : (q, v) ∈ es) :
+    (envTree es).get q = v := by
+  have fam := entries_family es h
+  rcases h.2 (q, v) hm with h0 | ⟨a, h0⟩
+  · -- a hole: every other entry lies off the branch of `q`
+    simp only at h0; subst h0
+    apply kind_eq_null
+    rw [(obs_entTree es h).2 q]
+    apply kfold_null
+    intro x hx
+    simp only [singles, List.map_map, List.mem_map] at hx
+    obtain ⟨e, he, rfl⟩ := hx
+    simp only [Function.comp_apply]
+    have hpw := (pathsConsistent_iff _).mp h.1
+    rw [List.pairwise_map] at hpw
+    rcases pairwise_mem_cases hpw hm he with heq | hc | hc
+    · subst heq; simp [get_single_self, Val.kind]
+    · have := onBranch_of_pathCompat (pathCompat_symm hc)
+      simp [get_single_off _ this, Val.kind]
+    · have := onBranch_of_pathCompat hc
+      simp [get_single_off _ this, Val.kind]
+  · simp only at h0; subst h0
+    apply kind_eq_atom
+    rw [(obs_entTree es h).2 q]
+    let ks := (singles es).map fun t => (t.get q).kind
+    have hpw : ks.Pairwise (fun x y => kdisj x y = true) := by
+      simp only [ks, List.pairwise_map]; exact fam.1.imp (fun h => h q)
+    have hmem : Kind.atom a ∈ ks := by
+      simp only [ks, singles, List.map_map, List.mem_map]
+      exact ⟨(q, .atom a), hm, by simp [get_single_self, Val.kind]⟩
+    have hperm := List.perm_cons_erase hmem
+    show ks.foldl kmerge .null = _
+    rw [kfold_perm hperm .null (fun x _ => by simp) hpw]
+    simp only [List.foldl_cons, kmerge_null_left]
+    apply kfold_atom
+    have := (hperm.pairwise_iff (fun h => kdisj_symm h)).mp hpw
+    rw [List.pairwise_cons] at this
+    exact this.1
+
+/-- the tree has nothing where no entry is on the branch -/
+theorem entTree_get_off (es : List (Path × Val)) (h : EntriesOk es) {p : Path}
+    (ht : es.all (fun e => !onBranch e.1 p) = true) : (envTree es).get p = .null := by
+  apply kind_eq_null
+  rw [(obs_entTree es h).2 p]
+  apply kfold_null
+  intro x hx
+  simp only [singles, List.map_map, List.mem_map] at hx
+  obtain ⟨l, hl, rfl⟩ := hx
+  have := List.all_eq_true.mp ht l hl
+  simp at this
+  simp [get_single_off _ this]
+
+/-- the entries of a consistent environment are scalars or holes at compatible places -/
+theorem entriesOk_env (env : Env) (h : env.consistent = true) : EntriesOk env.entries := by
+  refine ⟨?_, fun e he => ?_⟩
+  · rw [entries_paths, ← Leaves.consistent, ← consistent_eq]; exact h
+  · simp only [Env.entries, List.mem_map] at he
+    obtain ⟨x, _, rfl⟩ := he
+    simp only [envVal]
+    split
+    · exact Or.inl rfl
+    · exact Or.inr ⟨_, rfl⟩
 
 /-! ## names of variables: the documented rule and the loader's normalisation are inverse -/
 
